@@ -657,11 +657,20 @@ func (in *Interp) forStmt(s *ast.ForStmt, st *State, label string) *State {
 	return exit
 }
 
+// RangeEval is delivered to Hooks.Node once per range statement, on the state before the loop,
+// after the range operand was evaluated (the *ast.RangeStmt node itself is delivered on the
+// per-iteration state).
+type RangeEval struct{ Stmt *ast.RangeStmt }
+
+func (r *RangeEval) Pos() token.Pos { return r.Stmt.X.Pos() }
+func (r *RangeEval) End() token.Pos { return r.Stmt.X.End() }
+
 func (in *Interp) rangeStmt(s *ast.RangeStmt, st *State, label string) *State {
 	st = in.expr(s.X, st)
 	if st == nil {
 		return nil
 	}
+	in.node(&RangeEval{s}, st)
 	entry := st
 	head := entry.Clone()
 	pass := func(head *State) (next, exit *State) {
